@@ -606,6 +606,9 @@ def run_robust(case):
     info = {}
     steps.start(_W["lib_budget"])
     _W["jumps"].update(n=0, budget=2_000_000)
+    # loading a file of a few kB takes milliseconds of CPU; 40 s of CPU time inside ONE load is a hang that makes neither
+    # calls nor jumps (a regular expression backtracking exponentially)
+    steps.cpu_start(40)
     try:
         from nemoguardrails import RailsConfig
 
@@ -619,6 +622,9 @@ def run_robust(case):
     except steps.StepBudgetExceeded as e:
         outcome = "step-budget"
         info = {"message": str(e)}
+        if isinstance(e, steps.CpuBudgetExceeded):
+            fn_, func_ = _raiser(e)
+            info["where"] = "%s:%s" % (fn_, func_)
     except steps.WatchdogTimeout:
         raise
     except Exception as e:
@@ -626,12 +632,15 @@ def run_robust(case):
         outcome = "other"
         info = {"exc_type": type(e).__name__, "raiser_file": fn, "raiser": func, "message": str(e)[:300]}
     finally:
+        steps.cpu_stop()
         steps.stop()
         _W["jumps"]["budget"] = None
     used = _W["file_steps"]
     if outcome == "step-budget":
         msg_ = info.get("message", "")
-        if msg_.startswith("loader loop in "):
+        if "CPU-time budget" in msg_:
+            info["loop_frame"] = "cpu-time:" + info.get("where", "?")
+        elif msg_.startswith("loader loop in "):
             info["loop_frame"] = "config.py:" + msg_[len("loader loop in "):].split(" ")[0]
         else:
             info["loop_frame"] = _loop_frame(content, ver)
